@@ -1,6 +1,6 @@
 """C15 — DNS client: reply parsing is total and bounded; each lookup completes once (tbox::network::DnsRequest)."""
 ID = 'C15'
-LEAN_MODULES = ['TboxModel.C15.Props']
+LEAN_MODULES = ['TboxModel.C15.Props', 'TboxModel.C15.PropsNet']
 EXE = 'c15'
 THEOREMS = ['Tbox.C15.C15_terminates', 'Tbox.C15.C15_terminates_bound', 'Tbox.C15.C15_terminates_reply',
             'Tbox.C15.C15_no_uninit_no_oob', 'Tbox.C15.C15_only_encoded', 'Tbox.C15.C15_only_encoded_callbacks',
@@ -12,7 +12,15 @@ THEOREMS = ['Tbox.C15.C15_terminates', 'Tbox.C15.C15_terminates_bound', 'Tbox.C1
             'Tbox.C15.C15_orig_idwrap_counterexample', 'Tbox.C15.C15_orig_timeout_early_counterexample',
             'Tbox.C15.C15_orig_selfcancel_counterexample',
             'Tbox.C15.C15_orig_terminates_counterexample', 'Tbox.C15.C15_orig_uninit_counterexample_short',
-            'Tbox.C15.C15_orig_uninit_counterexample_label', 'Tbox.C15.C15_orig_only_encoded_counterexample']
+            'Tbox.C15.C15_orig_uninit_counterexample_label', 'Tbox.C15.C15_orig_only_encoded_counterexample',
+            # round 3 (PropsNet.lean)
+            'Tbox.C15.C15_query_roundtrip_partial', 'Tbox.C15.C15_query_never_rejected', 'Tbox.C15.C15_accepted_lookup_pending',
+            'Tbox.C15.C15_refused_lookup_nothing', 'Tbox.C15.C15_query_roundtrip_counterexample_empty_label',
+            'Tbox.C15.C15_query_roundtrip_counterexample_trailing_dot', 'Tbox.C15.C15_query_roundtrip_counterexample_label192',
+            'Tbox.C15.C15_query_roundtrip_counterexample_label256', 'Tbox.C15.C15_u16be_value', 'Tbox.C15.C15_query_id_field',
+            'Tbox.C15.C15_recv_faults_harmless', 'Tbox.C15.C15_sock_delivers', 'Tbox.C15.C15_truncated_only_encoded',
+            'Tbox.C15.C15_query_echo_ignored', 'Tbox.C15.C15_own_query_ignored', 'Tbox.C15.C15_question_not_compared',
+            'Tbox.C15.C15_parse_cost_linear', 'Tbox.C15.C15_parse_cost_inflated_example', 'Tbox.C15.C15_inflated_counts_dropped']
 import vlib
 SOURCES = (['modules/network/dns_request.cpp', 'modules/network/udp_socket.cpp', 'modules/network/socket_fd.cpp',
             'modules/network/sockaddr.cpp', 'modules/network/ip_address.cpp',
@@ -23,7 +31,8 @@ LIBS = ['-ldl']
 BATCH = 150
 MAX_REPORT = 6
 SHRINK_TESTS = 60
-TRUSTED = ['model lean/TboxModel/C15/{Deserializer,Model}.lean is hand-written from modules/network/dns_request.cpp, '
+TRUSTED = ['interposed sendto/recvfrom in props/C15/harness.cpp: the kernel\'s answers to the client\'s socket calls come from the op file (errno per call index); a sendto failed by the schedule sends nothing and leaves the socket unbound, the harness then binds it to an ephemeral port itself before delivering a datagram',
+           'model lean/TboxModel/C15/{Deserializer,Model}.lean is hand-written from modules/network/dns_request.cpp, modules/network/udp_socket.cpp (onSocketEvent, send), modules/util/string.cpp (Split), '
            'modules/util/serializer.cpp (Deserializer) and modules/eventx/timeout_monitor_impl.hpp with patches/C15-01..04 applied; '
            'tied by differential runs',
            'harness/vtime.h virtual clock (libc interposition) and harness/loopdrv.h; the loop, TimerEvent and UdpSocket are the real ones',
@@ -31,8 +40,9 @@ TRUSTED = ['model lean/TboxModel/C15/{Deserializer,Model}.lean is hand-written f
            'ASan/UBSan observe memory errors (an uninitialised read that does not change an observable is not seen at run time)']
 ASSUMPTIONS = ['no datagram arrives on the real UDP socket during a run (queries go to 127.0.0.1-3:53, nothing listens)',
                'the DnsRequest object is not destroyed from inside one of its callbacks (TimeoutMonitor/UdpSocket assert cb_level_ == 0 in their destructors); a datagram that reaches the UDP socket while nothing is outstanding (socket disabled) is discarded by the harness instead of waiting in the kernel queue for the next request() (onUdpRecv would drop it as unknown id unless the id is handed out again first)',
-               'the clock advances in whole seconds between operations (one timer firing per tick)']
-RULE = ('op sequences (servers/defscript/lookup/cancel/running/recv/net/tick/churn/burst; `net` sends the datagram to the client\'s real UDP socket; a lookup\'s callback is a script of API calls — new lookups with their own scripts, cancels of other lookups and of the own one — executed inside the reply/error/all-servers-failed/timeout callback) from props/C15/plugin.py: replies built from a structured DNS '
+               'the clock advances in whole seconds between operations (one timer firing per tick)',
+               'kernel semantics assumed for the UDP socket: recvfrom without MSG_TRUNC returns min(datagram, buffer) bytes and discards the rest; a failed recvfrom consumes nothing; sendto of more than 65 507 bytes fails with EMSGSIZE; datagrams sent over loopback from one socket are queued in order and are readable in the next loop pass']
+RULE = ('op sequences (servers/defscript/lookup/lookupn/cancel/running/recv/recva/net/sock/tick/churn/burst; `lookupn` = request() for an arbitrary byte string as name (labels of 63/64/191/192/255/256/257 bytes, names of 253..400 bytes, empty labels, trailing/leading dots, NUL and non-ASCII bytes, a 66 KB name) with the kernel\'s answer to every sendto taken from the op line (ENETUNREACH/EPERM/EAGAIN/ENOBUFS/EINTR, all or some servers); every query datagram seen by the interposed sendto is compared byte for byte with the model\'s encoder; `sock` = a schedule of recvfrom answers (EINTR/EAGAIN/ECONNREFUSED/ECONNRESET/EIO/ENOBUFS before, between and after queued datagrams, empty datagrams), one loop pass per answer; `recva k` = onUdpRecv with the datagram at address = k mod 8, flush against the end of its heap block; `net` sends the datagram to the client\'s real UDP socket; a lookup\'s callback is a script of API calls — new lookups with their own scripts, cancels of other lookups and of the own one — executed inside the reply/error/all-servers-failed/timeout callback) from props/C15/plugin.py: replies built from a structured DNS '
         'encoder (A/CNAME/other records, compression pointers, chains of 1..18 pointers) then mutated (truncation at every '
         'offset, inflated counts, self/looping/out-of-range pointers, NUL and long labels, wrong rdlength, rcodes, QR bit, '
         'foreign ids, bit flips) plus a random-bytes stream; non-trivial = at least one callback ran and at least one datagram '
@@ -521,8 +531,184 @@ def directed():
         yield ['lookup', 'recv ' + hx(chain_reply(r0, 1, k)), 'running 1'] + ['tick'] * 5
 
 
+
+# ----------------------------------------------------------------------------- round 3: names, fault schedules, alignment
+
+EINTR, EAGAIN, EPERM, ENETUNREACH, ECONNREFUSED, ECONNRESET, ENOBUFS, EIO = 4, 11, 1, 101, 111, 104, 105, 5
+NAME_FAMILIES = ['plain', 'label-63', 'label-64', 'label-65', 'label-191', 'label-192', 'label-255', 'label-256', 'label-257',
+                 'label-300', 'total-253', 'total-254', 'total-255', 'total-256', 'total-400', 'empty', 'dot', 'dotdot', 'a..b',
+                 'lead-dot', 'trail-dot', 'nul', 'high', 'c0-bytes', 'digits', 'one']
+
+
+def name_of(rng, fam):
+    lab = lambda n, c=None: bytes((c if c is not None else rng.choice(b'abcdefghijklmnopqrstuvwxyz0123456789-')) for _ in range(n))
+    if fam == 'plain': return b'.'.join(lab(rng.choice([1, 2, 3, 7, 12])) for _ in range(rng.choice([1, 2, 3, 4])))
+    if fam.startswith('label-'):
+        n = int(fam.split('-')[1])
+        parts = [lab(rng.choice([1, 3])) for _ in range(rng.choice([0, 1, 2]))]
+        parts.insert(rng.randrange(len(parts) + 1), lab(n))
+        return b'.'.join(parts)
+    if fam.startswith('total-'):
+        total = int(fam.split('-')[1])          # length of the dotted string; the QNAME is total + 2 bytes
+        out = b''
+        while len(out) < total:
+            n = min(63, total - len(out))
+            out += lab(n)
+            if len(out) < total: out += b'.'
+        return out[:total] if not out[:total].endswith(b'.') else out[:total - 1] + b'x'
+    if fam == 'empty': return b''
+    if fam == 'dot': return b'.'
+    if fam == 'dotdot': return b'..'
+    if fam == 'a..b': return lab(2) + b'..' + lab(3)
+    if fam == 'lead-dot': return b'.' + lab(3) + b'.com'
+    if fam == 'trail-dot': return lab(3) + b'.com.'
+    if fam == 'nul': return lab(2) + b'\x00' + lab(2) + b'.com'
+    if fam == 'high': return bytes(rng.randrange(128, 256) for _ in range(rng.choice([1, 4, 9]))) + b'.' + lab(2)
+    if fam == 'c0-bytes': return b'\xc0\x0c.' + lab(2) + b'.\xff\xff'
+    if fam == 'digits': return b'10.0.0.1'
+    if fam == 'one': return lab(1)
+    raise ValueError(fam)
+
+
+def qname_of(name):
+    """AppendDomain as the code does it (reference encoder of the generator, used to build echoing replies)"""
+    return b''.join(bytes([len(p) & 255]) + p for p in name.split(b'.')) + b'\x00'
+
+
+def gen_names(rng, fam=None):
+    """request() with names of every boundary family, kernel answers to the sendto calls from the op file (all fail /
+    some fail / none), then a reply that echoes the question as it was sent (accepted only if the parser can walk it),
+    then the ring drains: every accepted lookup completes exactly once"""
+    ops = []
+    ns = rng.choice([1, 1, 2, 3])
+    if ns != 1: ops.append('servers %d' % ns)
+    if rng.random() < 0.3: ops.append('defscript ' + rng.choice(['L0', 'S', 'Q,L0', '-']))
+    k = rng.choice([1, 2, 3])
+    for i in range(k):
+        f = fam if fam and i == 0 else rng.choice(NAME_FAMILIES)
+        name = name_of(rng, f)
+        r = rng.random()
+        if r < 0.4: send = '-'
+        elif r < 0.6: send = ','.join(str(rng.choice([ENETUNREACH, EPERM, EAGAIN, ENOBUFS, EINTR])) for _ in range(ns))       # every send fails
+        else: send = ','.join(str(rng.choice([0, 0, ENETUNREACH, EPERM, EAGAIN])) for _ in range(rng.choice([1, ns, ns + 1])))
+        sid = '0' if ops and ops[-1].startswith('defscript') and rng.random() < 0.5 else '-'
+        ops.append('lookupn %s %s %s' % (hx(name), sid, send))
+        ops.append('running %d' % (i + 1))
+        if rng.random() < 0.6:
+            qn = qname_of(name)
+            rep = hdr(i + 1, 0x8180, 1, 1) + qn + u16(1) + u16(1) + ptr(12) + u16(1) + u16(1) + u32(30) + u16(4) + bytes([10, 1, 2, i])
+            if len(rep) < 9000: ops.append(rng.choice(['recv ', 'net ', 'recva %d ' % rng.randrange(8)]) + hx(rep))
+        if rng.random() < 0.3: ops.append('tick')
+    for i in range(k + 2): ops.append('running %d' % (i + 1))
+    ops += ['tick'] * rng.choice([5, 6, 10])
+    for i in range(k + 3): ops.append('running %d' % (i + 1))
+    return ops
+
+
+def good_reply(i, ip=None):
+    return (hdr(i, 0x8180, 1, 1) + b'\x05verif\x07example\x03com\x00' + u16(1) + u16(1) + ptr(12) + u16(1) + u16(1) + u32(5) + u16(4)
+            + (ip or bytes([10, 0, i & 255, i >> 8])))
+
+
+def gen_sock(rng):
+    """fault schedules on the client's recvfrom: EINTR / EAGAIN / ECONNREFUSED / ECONNRESET / EIO before, between and after
+    datagrams; empty datagrams; several datagrams queued at once (a completion whose callback retries re-enables the
+    socket inside its own read callback and the next queued datagram is for the retry)"""
+    ops = []
+    ns = rng.choice([1, 1, 2])
+    if ns != 1: ops.append('servers %d' % ns)
+    ops.append('defscript ' + rng.choice(['L1', 'L0', 'S,L1', 'C2,L1']))
+    ops.append('defscript -')
+    k = rng.choice([1, 2, 3])
+    for i in range(k): ops.append(rng.choice(['lookup', 'lookup 0', 'lookup 1']))
+    errs = [EINTR, EAGAIN, ECONNREFUSED, ECONNRESET, EIO, ENOBUFS]
+    for _ in range(rng.choice([1, 2, 3])):
+        toks = []
+        for _ in range(rng.choice([1, 2, 3, 4, 5])):
+            r = rng.random()
+            if r < 0.4: toks.append('E%d' % rng.choice(errs))
+            elif r < 0.5: toks.append('Z')
+            else:
+                rid = rng.choice(list(range(1, k + 3)) + [0, 65535])
+                how = rng.random()
+                if how < 0.6: d = good_reply(rid)
+                elif how < 0.75: d = hdr(rid, 0x8180 | rng.choice([2, 3, 5]), 1, 0) + b'\x01a\x00' + u16(1) + u16(1)
+                elif how < 0.85: d = good_reply(rid)[:rng.randrange(0, 40)]
+                else: d = mutate(rng, rand_reply(rng, rid))
+                toks.append(hx(d) if d else 'Z')
+        ops.append('sock ' + ','.join(toks))
+        for i in range(1, k + 3): ops.append('running %d' % i)
+        if rng.random() < 0.4: ops.append('tick')
+    ops += ['tick'] * rng.choice([5, 6, 11])
+    for i in range(1, k + 5): ops.append('running %d' % i)
+    return ops
+
+
+def gen_align(rng):
+    """onUdpRecv with the datagram at every alignment 0..7 of its start address, right against the end of its heap
+    block; lengths 0..3 (shorter than id+flags), 4..13 (around the 12-byte header) and whole replies"""
+    ops = ['lookup', 'lookup']
+    base = good_reply(1)
+    for k in range(8):
+        n = rng.choice([0, 1, 2, 3, 4, 5, 8, 11, 12, 13, 16, 17, len(base) - 4, len(base) - 1])
+        ops.append('recva %d %s' % (k, hx(base[:n])))
+    ops.append('running 1')
+    k = rng.randrange(8)
+    ops.append('recva %d %s' % (k, hx(mutate(rng, rand_reply(rng, 1)))))
+    ops.append('recva %d %s' % (rng.randrange(8), hx(good_reply(1))))
+    ops.append('recva %d %s' % (rng.randrange(8), hx(boundary_reply(rng, 2, rng.choice(BOUNDARY_FAMILIES)))))
+    ops += ['running 1', 'running 2'] + ['tick'] * 5
+    return ops
+
+
+def directed3():
+    """round 3 directed cases: what the client accepts as a reply (header semantics), counts at 0xFFFF, id wrap with
+    lookups outstanding at both ends, reconfiguration while lookups are pending, every send failing"""
+    qn = b'\x05verif\x07example\x03com\x00'
+    query = lambda i: hdr(i, 0x0100, 1, 0) + qn + u16(1) + u16(1)
+    a_rec = ptr(12) + u16(1) + u16(1) + u32(300) + u16(4) + bytes([93, 184, 216, 34])
+    # the query echoed back (QR = 0) must not complete the lookup; neither with an answer attached; then the real reply does
+    yield ['lookup', 'recv ' + hx(query(1)), 'running 1', 'net ' + hx(query(1)), 'running 1',
+           'recv ' + hx(hdr(1, 0x0180, 1, 1) + qn + u16(1) + u16(1) + a_rec), 'running 1', 'recv ' + hx(good_reply(1)), 'running 1'] + ['tick'] * 5
+    # QR = 0 with rcode 3 / 2: still ignored (rcode is looked at only in responses); times out
+    yield ['lookup', 'recv ' + hx(hdr(1, 0x0103, 1, 0) + qn + u16(1) + u16(1)), 'recv ' + hx(hdr(1, 0x0002, 0, 0)), 'running 1'] + ['tick'] * 5
+    # TC bit, opcode != 0, Z bits, AA, RA clear: accepted as long as QR = 1 and rcode = 0 (what the code accepts)
+    for fl in (0x8380, 0x8200, 0xF980, 0x8070, 0x8400, 0x8000, 0xFFF0):
+        yield ['lookup', 'recv ' + hx(hdr(1, fl, 1, 1) + qn + u16(1) + u16(1) + a_rec), 'running 1', 'tick']
+    # the question section is not compared with the name asked: a reply about another name (or with no question at all) completes the lookup
+    yield ['lookup', 'recv ' + hx(hdr(1, 0x8180, 1, 1) + b'\x04evil\x03com\x00' + u16(1) + u16(1) + a_rec), 'running 1'] + ['tick'] * 5
+    yield ['lookup', 'recv ' + hx(hdr(1, 0x8180, 0, 1) + b'\x04evil\x00' + u16(1) + u16(1) + u32(1) + u16(4) + b'\x01\x02\x03\x04'), 'running 1'] + ['tick'] * 5
+    # counts at 0xFFFF in a 12-byte datagram and in a datagram with one record: rejected at the first missing byte
+    for qd, an in ((0xFFFF, 0xFFFF), (0, 0xFFFF), (0xFFFF, 0), (0, 0), (1, 0xFFFF)):
+        yield ['lookup', 'recv ' + hx(hdr(1, 0x8180, qd, an)), 'running 1', 'recv ' + hx(hdr(1, 0x8180, qd, an) + qn + u16(1) + u16(1) + a_rec), 'running 1', 'cancel 1']
+    # TTL / RDLENGTH / type at 0xFFFF(FFFF)
+    yield ['lookup', 'lookup', 'recv ' + hx(hdr(1, 0x8180, 1, 1) + qn + u16(1) + u16(1) + ptr(12) + u16(1) + u16(0xFFFF) + u32(0xFFFFFFFF) + u16(0xFFFF) + b'\x01\x02\x03\x04'),
+           'recv ' + hx(hdr(2, 0x8180, 1, 1) + qn + u16(1) + u16(1) + ptr(12) + u16(0xFFFF) + u16(1) + u32(0xFFFFFFFF) + u16(0xFFFF) + b'x' * 0xFFFF),
+           'running 1', 'running 2', 'cancel 2']
+    # the id counter driven across 65535 with lookups outstanding at both ends: 65534, 65535 outstanding, 1 and 2 outstanding
+    yield ['lookup', 'lookup', 'churn 65531', 'lookup', 'lookup', 'lookup', 'lookup', 'running 65534', 'running 65535', 'running 0', 'running 1', 'running 2',
+           'running 3', 'running 4', 'recv ' + hx(good_reply(65535)), 'recv ' + hx(good_reply(3)), 'recv ' + hx(good_reply(0)), 'recv ' + hx(good_reply(1)),
+           'running 65535', 'running 3', 'running 1'] + ['tick'] * 6
+    # every send fails (ENETUNREACH, EPERM, EAGAIN): the lookup is registered all the same and completes once, by timeout ...
+    yield ['servers 3', 'lookupn ' + hx(b'www.example.com') + ' - 101,1,11', 'running 1'] + ['tick'] * 4 + ['running 1', 'tick', 'running 1', 'tick']
+    # ... or by a reply that arrives nevertheless; a retry from the timeout callback also fails to send and times out in turn
+    yield ['defscript L0', 'lookupn ' + hx(b'a.b') + ' 0 101'] + ['tick'] * 5 + ['running 2'] + ['tick'] * 5 + ['running 3', 'cancel 3', 'tick']
+    yield ['servers 2', 'lookupn ' + hx(b'a.b') + ' - 101,101', 'recv ' + hx(good_reply(1)), 'running 1'] + ['tick'] * 5
+    # the server list changes while lookups wait for the other servers' failures: shrinks (one more failure ends it), grows, empties
+    sf = lambda i, rc: hdr(i, 0x8180 | rc, 1, 0) + qn + u16(1) + u16(1)
+    yield ['servers 3', 'lookup', 'lookup', 'lookup', 'recv ' + hx(sf(1, 2)), 'servers 1', 'recv ' + hx(sf(2, 2)), 'running 1', 'running 2', 'servers 3',
+           'recv ' + hx(sf(1, 2)), 'running 1', 'servers 0', 'recv ' + hx(sf(3, 2)), 'running 3', 'lookup', 'recv ' + hx(sf(1, 5)), 'running 1'] + ['tick'] * 5
+    # recvfrom fault schedules: failures before the datagram, between two datagrams, an empty datagram; ICMP-style ECONNREFUSED
+    yield ['lookup', 'lookup', 'sock E4,E11,E111,' + hx(good_reply(1)), 'running 1', 'sock ' + hx(sf(2, 2))[:0] + 'Z,E104,' + hx(good_reply(2)) + ',E5', 'running 2', 'sock E111', 'tick']
+    yield ['defscript L1', 'defscript -', 'lookup 0', 'sock ' + hx(sf(1, 3)) + ',E4,' + hx(good_reply(2)) + ',' + hx(good_reply(2)), 'running 2', 'running 3'] + ['tick'] * 5
+    # malformed op lines of the new ops
+    yield ['lookup', 'lookupn', 'lookupn 61 - -,', 'lookupn 6g - -', 'lookupn 61 64 -', 'lookupn 61 - 4096', 'lookupn 61 - 1,', 'sock', 'sock ,', 'sock E', 'sock Ex', 'sock -',
+           'sock 0g', 'sock 00,', 'recva 8 00', 'recva x 00', 'recva 1', 'recva 1 0g', 'lookupn - - -', 'sock Z', 'recva 0 -', 'cancel 1', 'cancel 2']
+
 def gen(rng, tier):
     for c in directed():
+        yield c
+    for c in directed3():
         yield c
     n = 500 if tier == 'quick' else 6000
     for i in range(n):
@@ -543,6 +729,17 @@ def gen(rng, tier):
     for fam in BOUNDARY_FAMILIES:
         for _ in range(2 if tier == 'quick' else 12):
             yield ['lookup', 'recv ' + hx(boundary_reply(rng, 1, fam)), 'running 1', 'tick', 'tick', 'tick', 'tick', 'tick']
+    for fam in NAME_FAMILIES:
+        for _ in range(2 if tier == 'quick' else 10):
+            yield gen_names(rng, fam)
+    for i in range(60 if tier == 'quick' else 600):
+        yield gen_names(rng)
+    for i in range(80 if tier == 'quick' else 800):
+        yield gen_sock(rng)
+    for i in range(30 if tier == 'quick' else 300):
+        yield gen_align(rng)
+    # a name whose query exceeds the largest UDP payload: every sendto fails with EMSGSIZE on its own
+    yield ['lookupn ' + hx(b'.'.join([b'x' * 60] * 1100)) + ' - -', 'running 1'] + ['tick'] * 5 + ['running 1']
     if tier == 'thorough':
         # all 65 535 ids outstanding: the next request() is refused; after one cancel exactly that id is handed out
         yield ['burst 65535', 'lookup', 'running 65535', 'running 0', 'cancel 7', 'running 7', 'lookup', 'running 7', 'lookup',
@@ -581,7 +778,7 @@ def fingerprint(ops, d):
     return hashlib.sha1((kinds + '|' + what + '|' + size).encode()).hexdigest()[:12]
 
 
-LEVEL_TEXT = ('Lean 4 theorems over a hand-written model of the DNS client: name decoding needs fuel <= 17*(len+2) (hop limit), '
+LEVEL_TEXT = ('Lean 4 theorems over a hand-written model of the DNS client (request encoder, UDP socket layer with the kernel\'s answers as oracle inputs, reply parser, pending map + timeout ring): well-formed names round-trip through encoder and decoder (partial: request() checks nothing, 4 counterexample theorems), failed/empty recvfrom answers are no-ops, a datagram cut by the 4096-byte buffer reports only what the full datagram encodes, a QR=0 echo completes nothing, the record loops run at most |d|/5+1 and |d|/11+1 iterations whatever the counts claim; name decoding needs fuel <= 17*(len+2) (hop limit), '
               'no parse outcome reads an unset destination and every dereferenced byte range lies inside the datagram, every reported '
               'address/name is decoded from in-bounds bytes of completely present records, each lookup\'s callback runs at most once, '
               'C15_callback_once at full strength: each lookup\'s callback runs exactly once — a reply/error before, or a timeout exactly at, its fifth tick — unless cancelled (then never) or refused, for every history incl. id wrap and callbacks that issue and cancel lookups (the id allocation provably finds a free id: pigeonhole); '
